@@ -211,6 +211,7 @@ struct Sub {
 
 const OPT4: &[(Option<&str>, Option<&str>)] = &[(None, None), (Some("p"), Some("S")), (Some("p"), None), (None, Some("S"))];
 const PREFIXES: &[&str] = &["", "é", "a b", "-", "1x", "p--q"];
+const CLASS_SPELLINGS: &[&str] = &["a\\.b", "\\31 x", "é😀", "x\\:y", "w-1\\/2", "-c", "C"];
 
 fn build(thorough: bool) -> Vec<Sub> {
     let mut subs = vec![];
@@ -257,6 +258,23 @@ fn build(thorough: bool) -> Vec<Sub> {
             let k = i / 2;
             let p = PREFIXES[(k % PREFIXES.len() as u64) as usize];
             (selector_sheet(1, k / PREFIXES.len() as u64, &[]), opts_of(Some(p), sign))
+        }),
+    });
+    // 3b. spellings of the class name itself (escapes, non-ASCII, a digit first): the name is prefixed, its spelling kept
+    subs.push(Sub {
+        name: "class-spellings x selectors:depth<=1".into(),
+        size: n1 * CLASS_SPELLINGS.len() as u64 * 2,
+        gen: Box::new(move |i| {
+            let sign = if i % 2 == 0 { None } else { Some("S") };
+            let k = i / 2;
+            let sp = CLASS_SPELLINGS[(k % CLASS_SPELLINGS.len() as u64) as usize];
+            let mut sh = selector_sheet(1, k / CLASS_SPELLINGS.len() as u64, &[]);
+            for p in sh.pieces.iter_mut() {
+                if p.role == Role::Class && p.text == "c" {
+                    p.text = sp.to_string();
+                }
+            }
+            (sh, opts_of(Some("p"), sign))
         }),
     });
     // 4. value-token adjacency: pairs (and triples when thorough)
